@@ -67,7 +67,7 @@ class Hub(object):
         self.nevents = 0
         self.events = []          # (t, node_id, event_type) for every executed event
         self.violations = []
-        self.max_events = cfg.get("max_events", 400)
+        self.max_events = cfg.get("max_events", 150)
         self.entry = cfg.get("entry", ["max_time", 20.0])
         self.truncated = False
         self.monitors = monitors
